@@ -7,11 +7,10 @@ Require Import AV.Foam.Buf AV.Foam.LibHdr AV.Gen.FoamInfo AV.Foam.Current.
 Import ListNotations.
 Local Open Scope Z_scope.
 
-(* the header reader is total; on every byte string it refuses with a
-   diagnostic, or hits the one bug() of libChkHeader, or accepts a header that
-   passes every check *)
+(* the header reader is total; on every byte string it either refuses with a
+   diagnostic or accepts a header that passes every check (no other outcome exists) *)
 Theorem reader_total : forall file : bytes,
-  (exists m, read_lib LP file = Refused m) \/ read_lib LP file = Fault \/
+  (exists m, read_lib LP file = Refused m) \/
   (exists h, read_lib LP file = Loaded h /\ chk_header LP h = ChkOk).
 Proof. exact reader_total_current. Qed.
 Print Assumptions reader_total.
@@ -27,3 +26,17 @@ Theorem truncation_refused : forall (u : lunit) (k : nat),
   exists m, read_lib LP (firstn k (write_lib LP u)) = Refused m.
 Proof. exact truncation_refused_current. Qed.
 Print Assumptions truncation_refused.
+
+(* Full statement (single_byte_header_dichotomy): see Foam/LibHdrFacts2.v -- for every offset and
+   replacement byte the reader refuses or loads (a duplicated section name is refused).  Proved for every unit, offset and byte: damage in the body is invisible to the
+   header reader (it loads the written header: detection is left to the section decoders), and a
+   changed byte of the magic number is refused.  The other header fields: enumerated on every run
+   against this same read_lib (extracted) and the compiler. *)
+Theorem single_byte_header_dichotomy_partial : forall (u : lunit) (k : nat) (b : Z),
+  wf_lunit LP u ->
+  ((Z.to_nat (lp_hdr_size LP) <= k)%nat ->
+     read_lib LP (subst_nth k b (write_lib LP u)) = Loaded (mk_hdr LP u)) /\
+  ((k < 2)%nat -> 0 <= b < 256 -> b <> nth k (write_lib LP u) 0 ->
+     read_lib LP (subst_nth k b (write_lib LP u)) = Refused BadMagic).
+Proof. exact single_byte_header_dichotomy_partial_current. Qed.
+Print Assumptions single_byte_header_dichotomy_partial.
